@@ -46,14 +46,14 @@ def _scenario(draw, tier):
                 ops.append(["advance", draw(lc.advance_sizes())])
         return dict(mode=mode, cfg=cfg, ops=ops)
     if mode == "pool":
-        n = draw(st.integers(1, 4))
+        n = draw(st.integers(1, 5))
         cfgs = [draw(lc.sampler_config(max_d=2)) for _ in range(n)]
         return dict(mode=mode, cfgs=cfgs, seed=draw(st.integers(0, 2 ** 32 - 1)),
                     advances=[draw(st.one_of(st.sampled_from([0, 1, 3, 10]), st.integers(0, 40)))
                               for _ in range(draw(st.integers(1, 2)))],
                     sched=dict(seed=draw(st.integers(0, 2 ** 31 - 1)), stall_p=draw(st.sampled_from([0.0, 0.02, 0.1])),
                                speed_spread=draw(st.sampled_from([1.0, 4.0, 20.0]))),
-                    eval_cost=draw(st.sampled_from([1e-5, 1e-3, 0.1])))
+                    eval_cost=draw(st.sampled_from([1e-5, 1e-3, 0.1])), cores=draw(st.sampled_from([None, 1, 2, 3])))
     if mode == "timed":
         cfg = draw(lc.sampler_config(kinds=lc.CHAIN_KINDS, max_d=2))
         cfg["knobs"]["finite_diff"] = False
@@ -175,6 +175,9 @@ def run_arith(sc, V, stats):
 # ------------------------------------------------------------------ pool
 def run_pool(sc, V, stats):
     c = rctx.new_run(sc["seed"])
+    c.cores = sc.get("cores")  # simulated machine size: pools may hold more chains than cores
+    if c.cores and len(sc["cfgs"]) > c.cores:
+        stats["probe_pool_larger_than_core_count"] += 1
     seams.seed_global_streams(sc["seed"])
     sim = kernel.Sim(sc["sched"]["seed"], dict(stall_p=sc["sched"]["stall_p"], speed_spread=sc["sched"]["speed_spread"]))
     mp = kernel.SimMP(sim)
